@@ -651,19 +651,17 @@ func ruleC03AnchorScope(c *Ctx) {
 				}
 			}
 		})
-		if baseVal == nil {
-			continue
-		}
 		core.EachInstr(fn, func(i ssa.Instruction) {
 			call, ok := i.(*ssa.Call)
 			if !ok {
 				return
 			}
 			anchorArg := false
-			var infoArg ssa.Value
+			var infoArg, owner ssa.Value
 			for _, a := range call.Call.Args {
 				if c.isDirectFieldLoad(a, "Schema.Anchor") || c.isDirectFieldLoad(a, "Schema.DynamicAnchor") {
 					anchorArg = true
+					owner = a.(*ssa.UnOp).X.(*ssa.FieldAddr).X // the schema that declares the anchor
 				}
 				if isPointer(a.Type()) && c.isPkgNamed(a.Type(), "resolvedInfo") {
 					infoArg = a
@@ -673,6 +671,32 @@ func ruleC03AnchorScope(c *Ctx) {
 				return
 			}
 			n++
+			if baseVal == nil {
+				// registration in a separate pass: the table is looked up under the base recorded for the declaring schema,
+				// resolvedInfos[resolvedInfos[s].base] (or the value of a range over resolvedInfos whose key is s)
+				okRec := false
+				if lk, ok := infoArg.(*ssa.Lookup); ok {
+					if ld, ok := lk.Index.(*ssa.UnOp); ok && ld.Op == token.MUL {
+						if fa, ok := ld.X.(*ssa.FieldAddr); ok && c.fieldName(fa.X.Type(), fa.Field) == "resolvedInfo.base" {
+							switch x := fa.X.(type) {
+							case *ssa.Lookup:
+								okRec = x.Index == owner || sharesSource(x.Index, owner)
+							case *ssa.Extract:
+								if nx, ok := x.Tuple.(*ssa.Next); ok && x.Index == 2 {
+									for _, r := range *nx.Referrers() {
+										if k, ok := r.(*ssa.Extract); ok && k.Index == 1 && (ssa.Value(k) == owner || sharesSource(k, owner)) {
+											okRec = true
+										}
+									}
+								}
+							}
+						}
+					}
+				}
+				c.R.Check(okRec, rule, core.FuncName(fn)+":anchor-table-of-base", c.pos(call), "the anchor is entered in the table of the schema recorded as the base of the declaring schema",
+					"the anchor table receiving the anchor is not the table of the base recorded for the schema that declares the anchor: the anchor becomes visible in the wrong resource")
+				return
+			}
 			okPair := pairedLookup(c, infoArg, baseVal)
 			if ld, isLoad := baseVal.(*ssa.UnOp); isLoad && !okPair {
 				if cell := resolveCell(ld.X); cell != nil {
